@@ -5,6 +5,7 @@ import PGM.Properties.C01E
 import PGM.Properties.C04G
 import PGM.Properties.C08B
 import PGM.Properties.C02G
+import PGM.Proofs.GradLaid
 /-!
 # C08 (end to end) — what the GENERATED `estimate` returns, composed from the translator ties
 
@@ -70,6 +71,29 @@ theorem gmOf_total (nx : Nx) (g : GM α) : (gmOf nx g).total = g.total := gen_in
 
 /-- the model object does not depend on the two attributes the solvers assign -/
 theorem gmOf_writeBack (nx : Nx) (g : GM α) (r : Solvers.Result α) : gmOf nx (writeBack g r) = gmOf nx g := rfl
+
+/-- **the marginal oracle keeps the layout** (every scalar type): on the fields the generated `__init__` stores — whatever the
+library contracts answer — the generated `belief_propagation` maps parameters laid out on the model's cliques (keys
+`self.cliques` in order, each table well formed over `domain.project(clique)`) to marginals laid out on them -/
+theorem gen_bp_laid (nx : Nx) (d : Dom) (cliques : List Clique) (total : α) (mode : ElimMode)
+    (hd : d.WF) (hne : d.attrs ≠ []) (hcl : ∀ c ∈ cliques, c.Nodup ∧ ∀ a ∈ c, a ∈ d.attrs)
+    (hadm : Admissible nx d cliques mode) (θ : CliqueVec α)
+    (hθ : LocalE2E.Laid d (genInit nx d cliques total mode).cliques θ) :
+    LocalE2E.Laid d (genInit nx d cliques total mode).cliques
+      (GMG.beliefPropagation (genInit nx d cliques total mode).cliques (genInit nx d cliques total mode).message_order θ
+        (genInit nx d cliques total mode).total) := by
+  obtain ⟨hnd, hrecv⟩ := GradLaid.sched_of_check _ _ _ _ (gen_init_checkJT_nil nx d cliques total mode hd hne hcl hadm)
+  exact GradLaid.gen_beliefPropagation_laid d _ _ θ _ hnd
+    (gen_init_cliques_ok nx d cliques total mode hd hne hcl hadm).1 hrecv hθ
+
+/-- **`hgrad`, discharged for the generated `_marginal_loss`** (every scalar type, both metrics, arbitrary measurements): the
+gradient at marginals laid out on the (duplicate-free) clique list `cl` is laid out on it -/
+theorem gen_lossOf_laid (c : Cfg α) (g : GM α) (ms : List (Loss.Meas α)) (cl : List Clique) (hcn : cl.Nodup)
+    (mu : CliqueVec α) (hmu : LocalE2E.Laid c.domain cl mu) : LocalE2E.Laid c.domain cl (lossOf c g ms mu).2 := by
+  unfold lossOf
+  cases c.metric
+  · exact GradLaid.gen_marginalLossL2_laid c.domain cl g.cliques hcn ms mu hmu
+  · exact GradLaid.gen_marginalLossL1_laid c.domain cl g.cliques hcn ms mu hmu
 
 end oracles
 
